@@ -271,6 +271,18 @@ def sample_ndjson(path, k, seed=1, pred=None):
 
 
 # --------------------------------------------------------------------------- trace lint (TLC's JSON reader is lossy)
+def recorder_failed(v, p, trace, what):
+    """A recorder that ends with a Rust panic (exit 101) has shown a panic of the code under test: that is data, a violation
+    with the recorded prefix as artefact. Anything else is a tool error."""
+    if p.returncode != 101:
+        raise ToolError("%s failed (exit %d): %s" % (what, p.returncode, p.stderr[-2000:]))
+    tail = []
+    if os.path.exists(trace):
+        tail = open(trace, errors="replace").read().splitlines()[-25:]
+    v.violation("%s: the code under test panicked while the recorder drove it (%s)" % (what, (p.stderr.strip().splitlines() or ["no message"])[-1][:200]),
+                {"recorder": what, "stderr": p.stderr[-2000:], "last_recorded_events": tail}, "recorder_panic_%s.json" % re.sub(r"\W+", "_", what))
+
+
 def lint_trace(path):
     """Every number within +-(2^31-1), no floats, no null, ASCII only. Violations are tool errors."""
     def chk(v, where):
